@@ -215,6 +215,15 @@ class OrderAnalysis:
                                                  "only for ascending storage")
                 if m == "assign_coords":
                     self.check_assign_coords(n, recv)
+            if isinstance(n, ast.Call) and call_name(n).split(".")[-1] in ("diff", "gradient", "ediff1d") and n.args and not isinstance(n.func.value if isinstance(n.func, ast.Attribute) else None, type(None)):
+                # np.diff(<dir coordinate values>): differences of NEIGHBOURS IN STORAGE
+                base = n.args[0] if call_name(n).split(".")[0] in ("np", "numpy") else None
+                ct = self.coord_of(base) if base is not None else None
+                if ct is not None and ct != ("unk",):
+                    self.checked += 1
+                    if self._caller_order(ct):
+                        self.event("POS", n, f"'{unparse(n)[:60]}' differences neighbouring STORED {self.dim} values of caller-ordered data "
+                                             f"({self._show(ct)}): spacing / circularity derived from it is wrong unless the caller stored them ascending")
             if isinstance(n, ast.Subscript):
                 # X.dir[k] / X[dim][k] / dirs[k] with constant k
                 ct = self.coord_of(n.value)
